@@ -59,6 +59,8 @@ def _replay(name, law, other=None):
             "arrays": "X = [v[k] for k in sorted(v) if k.startswith('x')]; Y = [v[k] for k in sorted(v) if k.startswith('y')]\n"
                       "A, B = np.array(X), np.array(Y); r = N.compute(A, B)\n"
                       "col, row = np.array([[X[0]], [X[1]]]), np.array([Y]); r2 = N.compute(col, row)\n"
+                      "for p0, q0 in ((1.0, 1.0), (0.0, 0.0), (1.0, 0.0)):\n"
+                      "    if not same(N.compute(np.array([p0, X[0], X[1]]), np.array([q0, Y[0], Y[1]])), [f(p0, q0), f(X[0], Y[0]), f(X[1], Y[1])], tol): verdict(True, 'an array whose first pair is (%r, %r): %r' % (p0, q0, N.compute(np.array([p0, X[0], X[1]]), np.array([q0, Y[0], Y[1]]))))\n"
                       "MA = np.array([[X[0], X[0], X[1]], [X[1], X[0], X[1]]]).T; MB = np.array([[Y[0], Y[1], Y[1]], [Y[0], Y[0], Y[1]]]).T; rT = N.compute(MA, MB)\n"
                       "for P, Q in ((np.array([X[0]]), np.array([Y[0]])), (np.array([[X[0]], [X[1]]]), np.array([[Y[0]], [Y[1]]])), (np.array([[X[0], X[1]]]), np.array([[Y[0], Y[1]]])), (np.array([[X[0]]]), np.array([Y[0]]))):\n"
                       "    if np.shape(N.compute(P, Q)) != np.broadcast_shapes(P.shape, Q.shape): verdict(True, 'shape %r for operands %r %r' % (np.shape(N.compute(P, Q)), P.shape, Q.shape))\n"
@@ -142,7 +144,10 @@ def _ob_law(name, law, is_t, tier):
                 # operands with one element or with axes of length one: the result has the broadcast shape
                 sing = [(N.compute(sym_array(p), sym_array(q)), np.broadcast_shapes(np.shape(np.array(p, dtype=object)), np.shape(np.array(q, dtype=object))))
                         for p, q in (([xs[0]], [ys[0]]), ([[xs[0]], [xs[1]]], [[ys[0]], [ys[1]]]), ([[xs[0], xs[1]]], [[ys[0], ys[1]]]), ([[xs[0]]], [ys[0]]))]
-                return r1, el1, r2, el2, xs, ys, (A, B, col, row), rT, eT, sing
+                # the FIRST pair of an array is a special pair ((1,1), (0,0), (1,0)): the other elements are computed as ever
+                firsts = [(N.compute(sym_array([core.const(p0), xs[0], xs[1]]), sym_array([core.const(q0), ys[0], ys[1]])), [N.compute(core.const(p0), core.const(q0)), el1[0], el1[1]])
+                          for p0, q0 in ((1.0, 1.0), (0.0, 0.0), (1.0, 0.0))]
+                return r1, el1, r2, el2, xs, ys, (A, B, col, row), rT, eT, sing, firsts
             raise AssertionError(law)
 
         for p in ob.paths(pre, body):
@@ -205,7 +210,7 @@ def _ob_law(name, law, is_t, tier):
                 ob.prove(pre, p, z3.And(is_val(e3[0], f(a.v, c.v)), is_val(e3[1], f(b.v, a2.v)), is_val(e4[0], f(a.v, c.v)), is_val(e4[1], f(b.v, a2.v))),
                          f"{name}/kinds/sequences", ins3, rp)
             elif law == "arrays":
-                r1, el1, r2, el2, xs, ys, (A, B, col, row), rT, eT, sing = r
+                r1, el1, r2, el2, xs, ys, (A, B, col, row), rT, eT, sing, firsts = r
                 pre2 = [unit(v) for v in xs + ys]
                 n = len(xs)
                 ins2 = {f"x{i}": x for i, x in enumerate(xs)}
@@ -221,6 +226,7 @@ def _ob_law(name, law, is_t, tier):
                     ob.prove(pre2, p, False, f"{name}/arrays/transposed-shape {kind_of(rT)}", ins2, rp)
                     continue
                 ob.prove(pre2, p, all_same(rT, eT), f"{name}/arrays/memory-layout", ins2, rp)
+                ob.prove(pre2, p, z3.And([all_same(a, e) for a, e in firsts]), f"{name}/arrays/special-first-pair", ins2, rp)
                 ob.prove(pre2, p, all_same(r1, el1), f"{name}/arrays/1d", ins2, rp)
                 ob.prove(pre2, p, all_same(r2, [e for row in el2 for e in row]), f"{name}/arrays/broadcast", ins2, rp)
                 ob.prove(pre2, p, z3.And(all_same(A, xs), all_same(B, ys), all_same(col, xs[:2]), all_same(row, ys)),
